@@ -476,9 +476,13 @@ func (c *MemConn) WaitLines(timeout time.Duration, pred func(lines []string) boo
 			c.mu.Unlock()
 			return ok
 		case <-t.C:
-			// nothing happened for a while: if the process is provably dead, waiting longer is pointless
+			// nothing happened for a while: if the process is provably dead, waiting longer is pointless —
+			// but what is awaited may have happened just before everything went quiet: look again first
 			if ProveDead(DeadInterval).Dead {
-				return false
+				c.mu.Lock()
+				ok := pred(c.lines)
+				c.mu.Unlock()
+				return ok
 			}
 		}
 	}
